@@ -5,6 +5,15 @@
 //   <id> <target> <mode> <resolver> <event> ...
 //     target    x = FormatterToXercesDOM      s = FormatterToSourceTree
 //               m = the stream serializer (XalanXMLSerializerFactory, UTF-8) whose bytes are parsed again by Xerces (SAX2)
+//               i = FormatterToSourceTree, dump of the document-order indexes (XalanNode::getIndex) in tree order:
+//                   (<index>:<attribute index>,...  children )   for an element,  <index> for any other node
+//               q = FormatterToSourceTree over a document of a XalanSourceTreeParserLiaison, then the order probe (below) on the
+//                   built tree (XalanSourceTreeWrapperParsedSource);   p = the stream serializer, its bytes parsed by
+//                   XalanTransformer::parseSource, then the same probe.  Output: ok <hex bytes of the probe's text result>
+//               Q / P = whole transformations: the script is serialized, an identity stylesheet (xsl:copy-of) transforms these bytes
+//                   into a FormatterToSourceTree document (Q) or into a stream that is parsed again (P); then the probe on both
+//                   probe = a stylesheet listing  //text()|//*|//comment()|//processing-instruction() ,  //*/node()  and, per
+//                   element, (text()|*)[1]  (everything the library orders by document-order index)
 //     mode      d = document mode  (x: FormatterToXercesDOM(doc, 0);  s: FormatterToSourceTree(mm, doc))
 //               f = fragment mode  (x: FormatterToXercesDOM(doc, frag, 0);  s: FormatterToSourceTree(doc, frag, mm))
 //     resolver  -  = no prefix resolver,  r|<prefix>|<uri>|...  = setPrefixResolver(a resolver with exactly these bindings)
@@ -39,6 +48,13 @@
 #include <xalanc/XalanSourceTree/FormatterToSourceTree.hpp>
 #include <xalanc/XalanSourceTree/XalanSourceTreeDocument.hpp>
 #include <xalanc/XalanSourceTree/XalanSourceTreeDocumentFragment.hpp>
+#include <xalanc/XalanSourceTree/XalanSourceTreeDOMSupport.hpp>
+#include <xalanc/XalanSourceTree/XalanSourceTreeParserLiaison.hpp>
+#include <xalanc/XalanTransformer/XalanSourceTreeWrapperParsedSource.hpp>
+#include <xalanc/XalanTransformer/XalanCompiledStylesheet.hpp>
+#include <xalanc/XalanTransformer/XalanParsedSource.hpp>
+#include <xalanc/XSLT/XSLTInputSource.hpp>
+#include <xalanc/XSLT/XSLTResultTarget.hpp>
 #include <map>
 
 using namespace verif;
@@ -165,6 +181,63 @@ static void dump_s(const XalanNode* n, std::string& out)
     }
 }
 
+static void dump_i(const XalanNode* n, std::string& out)
+{
+    char buf[32];
+    for (const XalanNode* c = n->getFirstChild(); c != 0; c = c->getNextSibling()) {
+        std::snprintf(buf, sizeof buf, "%lu", (unsigned long) c->getIndex());
+        if (c->getNodeType() == XalanNode::ELEMENT_NODE) {
+            out += std::string(" (") + buf + ":";
+            const XalanNamedNodeMap* am = c->getAttributes();
+            for (XalanSize_t i = 0; am != 0 && i < am->getLength(); ++i) {
+                std::snprintf(buf, sizeof buf, i ? ",%lu" : "%lu", (unsigned long) am->item(i)->getIndex());
+                out += buf;
+            }
+            dump_i(c, out);
+            out += " )";
+        } else
+            out += std::string(" ") + buf;
+    }
+}
+
+static const char* const PROBE =
+    "<xsl:stylesheet version='1.0' xmlns:xsl='http://www.w3.org/1999/XSL/Transform'><xsl:output method='text' encoding='UTF-8'/>"
+    "<xsl:template match='/'>"
+    "<xsl:for-each select='//text()|//*|//comment()|//processing-instruction()'><xsl:call-template name='d'/></xsl:for-each><xsl:text>#</xsl:text>"
+    "<xsl:for-each select='//*/node()'><xsl:call-template name='d'/></xsl:for-each><xsl:text>#</xsl:text>"
+    "<xsl:for-each select='//*'><xsl:for-each select='(text()|*)[1]'><xsl:call-template name='d'/></xsl:for-each><xsl:text>;</xsl:text></xsl:for-each>"
+    "</xsl:template>"
+    "<xsl:template name='d'>[<xsl:value-of select='name()'/>=<xsl:choose><xsl:when test='self::*'>E</xsl:when>"
+    "<xsl:otherwise><xsl:value-of select='.'/></xsl:otherwise></xsl:choose>]</xsl:template></xsl:stylesheet>";
+
+static const char* const IDENT =
+    "<xsl:stylesheet version='1.0' xmlns:xsl='http://www.w3.org/1999/XSL/Transform'><xsl:output method='xml' encoding='UTF-8'/>"
+    "<xsl:template match='/'><xsl:copy-of select='node()'/></xsl:template></xsl:stylesheet>";
+
+static XalanTransformer* g_t = 0;
+static const XalanCompiledStylesheet* g_probe = 0;
+static const XalanCompiledStylesheet* g_ident = 0;
+
+static std::string hexbytes(const std::string& s)
+{
+    static const char* d = "0123456789abcdef";
+    std::string r; r.reserve(s.size() * 2);
+    for (size_t i = 0; i < s.size(); ++i) { unsigned char c = (unsigned char) s[i]; r += d[c >> 4]; r += d[c & 15]; }
+    return r;
+}
+
+static bool probe_ready()
+{
+    if (g_t == 0) {
+        g_t = new XalanTransformer;
+        std::istringstream is(PROBE);
+        if (g_t->compileStylesheet(XSLTInputSource(is), g_probe) != 0) g_probe = 0;
+        std::istringstream is2(IDENT);
+        if (g_t->compileStylesheet(XSLTInputSource(is2), g_ident) != 0) g_ident = 0;
+    }
+    return g_probe != 0 && g_ident != 0;
+}
+
 // the serialized bytes parsed again: the same node tokens (no namespace URIs: compared by qualified name)
 class Collector : public xercesc::DefaultHandler
 {
@@ -276,6 +349,43 @@ static std::string run_case(char target, char mode, MapResolver* res, const std:
         mm.deallocate(doc);
         return status + out;
     }
+    if (target == 'i' || target == 'q') {
+        std::string status = "ok";
+        XalanSourceTreeDOMSupport dom;
+        XalanSourceTreeParserLiaison liaison(dom, mm);
+        dom.setParserLiaison(&liaison);
+        XalanSourceTreeDocument* doc = liaison.createXalanSourceTreeDocument();
+        const XalanNode* rootnode = doc;
+        XalanSourceTreeDocumentFragment* frag = 0;
+        try {
+            if (mode == 'f') {
+                frag = new XalanSourceTreeDocumentFragment(mm, *doc);
+                rootnode = frag;
+                FormatterToSourceTree fl(doc, frag, mm);
+                if (res) fl.setPrefixResolver(res);
+                feed(fl, evs);
+            } else {
+                FormatterToSourceTree fl(mm, doc);
+                if (res) fl.setPrefixResolver(res);
+                feed(fl, evs);
+            }
+        }
+        catch (const XalanDOMException&) { status = "err XalanDOMException"; }
+        catch (const XSLException&) { status = "err XSLException"; }
+        catch (...) { status = "err unknown"; }
+        if (status == "ok" && target == 'i') dump_i(rootnode, out);
+        if (status == "ok" && target == 'q') {
+            if (!probe_ready()) status = "err probe-stylesheet";
+            else {
+                XalanSourceTreeWrapperParsedSource ps(doc, liaison, dom);
+                std::ostringstream o2;
+                if (g_t->transform(ps, g_probe, XSLTResultTarget(o2)) != 0) status = "err probe-transform";
+                else out = " " + hexbytes(o2.str());
+            }
+        }
+        delete frag;
+        return status + out;
+    }
     // the stream serializer, then Xerces
     std::ostringstream os;
     std::string status = "ok";
@@ -293,6 +403,45 @@ static std::string run_case(char target, char mode, MapResolver* res, const std:
     catch (const XSLException&) { status = "err XSLException"; }
     catch (...) { status = "err unknown"; }
     if (status != "ok") return status;
+    if (target == 'Q') {
+        if (!probe_ready()) return "err probe-stylesheet";
+        std::istringstream is(os.str());
+        XalanSourceTreeDOMSupport dom;
+        XalanSourceTreeParserLiaison liaison(dom, mm);
+        dom.setParserLiaison(&liaison);
+        XalanSourceTreeDocument* doc = liaison.createXalanSourceTreeDocument();
+        FormatterToSourceTree fl(mm, doc);
+        if (g_t->transform(XSLTInputSource(is), g_ident, XSLTResultTarget(fl)) != 0) return "err stage1";
+        XalanSourceTreeWrapperParsedSource ps(doc, liaison, dom);
+        std::ostringstream o2;
+        if (g_t->transform(ps, g_probe, XSLTResultTarget(o2)) != 0) return "err probe-transform";
+        return "ok " + hexbytes(o2.str());
+    }
+    if (target == 'P') {
+        if (!probe_ready()) return "err probe-stylesheet";
+        std::istringstream is(os.str());
+        std::ostringstream mid;
+        if (g_t->transform(XSLTInputSource(is), g_ident, XSLTResultTarget(mid)) != 0) return "err stage1";
+        std::istringstream is2(mid.str());
+        const XalanParsedSource* ps = 0;
+        if (g_t->parseSource(XSLTInputSource(is2), ps) != 0) return "err probe-parse";
+        std::ostringstream o2;
+        const int rc = g_t->transform(*ps, g_probe, XSLTResultTarget(o2));
+        g_t->destroyParsedSource(ps);
+        if (rc != 0) return "err probe-transform";
+        return "ok " + hexbytes(o2.str());
+    }
+    if (target == 'p') {
+        if (!probe_ready()) return "err probe-stylesheet";
+        std::istringstream is(os.str());
+        const XalanParsedSource* ps = 0;
+        if (g_t->parseSource(XSLTInputSource(is), ps) != 0) return "err probe-parse";
+        std::ostringstream o2;
+        const int rc = g_t->transform(*ps, g_probe, XSLTResultTarget(o2));
+        g_t->destroyParsedSource(ps);
+        if (rc != 0) return "err probe-transform";
+        return "ok " + hexbytes(o2.str());
+    }
     return reparse(os.str());
 }
 
